@@ -108,6 +108,34 @@ type worker struct {
 	g    int
 	c    *mon.Ctx
 	bufs int64
+	kept []keptBuf // buffers returned by earlier calls of this goroutine, re-inspected after later calls
+}
+
+type keptBuf struct {
+	name string
+	b    []byte
+	d    uint64
+	cp   string
+	i    int
+}
+
+// recheck inspects the buffers returned earlier: nobody else's call (and no later call of this goroutine)
+// may have written into them.
+func (w *worker) recheck() {
+	for k := range w.kept {
+		kb := &w.kept[k]
+		if kb.b != nil && digest(kb.b) != kb.d {
+			w.c.Violation(kb.name, "returned-buffer-changed-by-a-later-call", "", map[string]any{"input": kb.i, "goroutine": w.g}, clipS(kb.cp), clipS(string(kb.b)))
+			kb.b = nil
+		}
+	}
+}
+
+func clipS(s string) string {
+	if len(s) > 300 {
+		return s[:300] + "..."
+	}
+	return s
 }
 
 type sink struct{ n int }
@@ -192,6 +220,14 @@ func (w *worker) stable(name string, b []byte, i int) {
 	atomic.AddInt64(&w.bufs, 1)
 	if digest(b) != d {
 		w.c.Violation(name, "returned-buffer-changed", "", map[string]any{"input": i, "goroutine": w.g}, cp, string(b))
+		return
+	}
+	// keep it: a pooled writer that handed out its own buffer overwrites it in a LATER call
+	w.recheck()
+	if len(w.kept) < 8 {
+		w.kept = append(w.kept, keptBuf{name, b, d, cp, i})
+	} else {
+		w.kept[int(atomic.LoadInt64(&w.bufs))%8] = keptBuf{name, b, d, cp, i}
 	}
 }
 
@@ -552,6 +588,7 @@ func run(c *mon.Ctx) {
 					fpMu.Unlock()
 				}
 			}
+			w.recheck()
 			c.CoverN("returned-buffers-checked", atomic.LoadInt64(&w.bufs))
 		}(g)
 	}
